@@ -97,12 +97,14 @@ def cmd_sensor_rearm(ipmi, args):
 def sensor_value(s, raw):
     """Converted reading or threshold of a full sensor record.
 
-    'na' if there is no reading or if the raw value is outside the domain of
-    the sensor's linearization function (1/x, ln, log, sqrt ... of e.g. 0).
+    'na' if there is no reading, if the raw value is outside the domain of
+    the sensor's linearization function (1/x, ln, log, sqrt ... of e.g. 0) or
+    if the sensor is non-linear (linearization 70h-7Fh: there is no formula,
+    the factors would have to be read with Get Sensor Reading Factors).
     """
     try:
         value = s.convert_sensor_raw_to_value(raw)
-    except (ValueError, ArithmeticError):
+    except (ValueError, ArithmeticError, pyipmi.errors.DecodingError):
         value = None
     if value is None:
         value = "na"
